@@ -78,6 +78,8 @@ def plan(prop, tier):
                 G("flags", Leaves="<-LvAnch", Quants="<-QSmall", MaxSize=3 if q else 4, FlagSets="<-AllFlags",
                   Alpha="{97, 10}", MaxLen=3),
                 G("fixed", Leaves="<-LvOptFix", Quants="<-QFix", MaxSize=3 if q else 4, MaxLen=5, invs=["T1_RoundTrip", "T2_OrderFree"]),
+                G("dynempty", Leaves="<-LvDynEmpty", Quants="<-QCount2", MaxSize=3, MaxLen=2 if q else 3, FlagSets="<-FlagsM",
+                  Alpha="{97, 98}", invs=["T1_RoundTrip", "T2_OrderFree", "T7_Nullable"]),
                 G("altnull", Leaves="<-LvAltNull", Quants="<-QOptOnly", MaxSize=3, Alpha="{120, 97, 98}", MaxLen=3,
                   Shapes="<-ShapesNoGrp", invs=["T1_RoundTrip", "T2_OrderFree"]),
                 T("rand", "general", 2000, 40000)] + ([] if q else [SUITE])
@@ -167,6 +169,8 @@ def plan(prop, tier):
                 dict(G("sem", MaxSize=3 if q else 4, MaxLen=3), **o),
                 dict(G("prefix", Leaves="<-LvABEol", Quants="<-QOptOnly", Shapes="<-ShapesSeq", MaxSize=4, MaxLen=5 if q else 6,
                        invs=["T1_RoundTrip", "T18_SearchSound", "T21_OpSem"]), **o),        # literal prefixes that overlap themselves
+                dict(G("catcase", Leaves="<-LvCatCase", Quants="<-QCatCase", MaxSize=3, MaxLen=3, FlagSets="<-FlagsI", Shapes="<-ShapesSeq",
+                       Alpha="{97, 65, 49}", invs=["T1_RoundTrip", "T2_OrderFree", "T21_OpSem"]), **o),
                 dict(G("casei", Leaves="<-LvCaseOpt", Quants="<-QBasicLazy", MaxSize=3, MaxLen=3, FlagSets="<-FlagsI",
                        Alpha="{233, 201, 955}", invs=["T1_RoundTrip", "T2_OrderFree", "T18_SearchSound"]), **o),
                 T("rand", "general", 2000, 40000, unopt=True), T("case", "case", 1000, 20000, unopt=True),
@@ -190,6 +194,8 @@ def plan(prop, tier):
                   Alpha="{66600, 66560, 97}", MaxLen=3),
                 G("punct", Leaves="<-LvPunct", Quants="<-QBasic", MaxSize=2 if q else 3, FlagSets="<-FlagsI",
                   Alpha="{91, 123, 94, 126, 64, 96, 95, 127, 92, 124}", MaxLen=2),
+                G("catcase", Leaves="<-LvCatCase", Quants="<-QCatCase", MaxSize=3, MaxLen=3, FlagSets="<-FlagsI", Shapes="<-ShapesSeq",
+                  Alpha="{97, 65, 49}"),
                 G("ranges", Leaves="<-LvCaseRange", Quants="<-QBasic", MaxSize=2, FlagSets="<-FlagsI",
                   Alpha="{103, 71, 101, 1105, 1025, 1078, 64, 181, 924, 956}", MaxLen=2),
                 T("rand", "case", 2000, 40000)]
@@ -240,6 +246,8 @@ def plan(prop, tier):
                   Alpha="{97, 65, 10}", Variants='{"laws"}', invs=["T16_Laws"]),
                 G("lawsfix", Leaves="<-LvLawFix" if q else "<-LvOptFix", Quants="<-QLawFix" if q else "<-QFix", MaxSize=3 if q else 4, MaxLen=5, Alpha="{97, 98}",
                   Variants='{"laws"}', invs=["T1_RoundTrip", "T16_Laws"]),
+                G("lawscat", Leaves="<-LvCatCase", Quants="<-QCatCase", MaxSize=3, MaxLen=3, FlagSets="<-FlagsI", Shapes="<-ShapesSeq",
+                  Alpha="{97, 65, 49}", Variants='{"laws"}', invs=["T1_RoundTrip", "T16_Laws", "T21_OpSem"]),
                 G("lawsvar", Leaves="<-LvVarLen", Quants="<-QVarLen", MaxSize=3, MaxLen=4 if q else 5,
                   Variants='{"laws"}', invs=["T1_RoundTrip", "T16_Laws", "T21_OpSem"]),
                 T("rand", "general", 1500, 30000),
